@@ -1,4 +1,5 @@
 import PandoraModel.Properties.C12
+import PandoraModel.Properties.C12Kernels
 open Pandora.C12
 -- tie to the source
 #print axioms stems_from_source
@@ -49,3 +50,7 @@ open Pandora.C12
 #print axioms windowSums_direct
 #print axioms varRaster_spec
 #print axioms stdBandSq_spec
+-- the kernels regenerated from the Python source (translator/pyvec.py, Generated/KernelsConf.lean) = the hand model
+#print axioms Pandora.C12Kernels.tile_eq
+#print axioms Pandora.C12Kernels.computeAmbiguity_generated_eq
+#print axioms Pandora.C12Kernels.computeRisk_generated_eq
